@@ -45,11 +45,16 @@ func (c *Chain) WrapEth(tx *ethtypes.Transaction, from common.Address) []byte {
 }
 
 func (c *Chain) WrapEthErr(tx *ethtypes.Transaction, from common.Address) ([]byte, error) {
+	return c.WrapEthFromRaw(tx, from.Bytes())
+}
+
+// WrapEthFromRaw is WrapEthErr with the declared sender given as raw address bytes of any length.
+func (c *Chain) WrapEthFromRaw(tx *ethtypes.Transaction, from []byte) ([]byte, error) {
 	bin, err := tx.MarshalBinary()
 	if err != nil {
 		return nil, err
 	}
-	msg := &evmtypes.MsgEthereumTx{MarshalledTx: bin, From: sdk.AccAddress(from.Bytes()).String()}
+	msg := &evmtypes.MsgEthereumTx{MarshalledTx: bin, From: sdk.AccAddress(from).String()}
 	b := c.Enc.TxConfig.NewTxBuilder()
 	builder, ok := b.(authtx.ExtensionOptionsTxBuilder)
 	if !ok {
